@@ -79,7 +79,18 @@ func Patch(y tensor.Tensor, x tensor.Tensor, p tensor.Tensor, index []tensor.Ran
 			{
 				target: p,
 				gradFn: func() (tensor.Tensor, error) {
-					return y.Gradient().Slice(index)
+					// an omitted range places the source at offset 0 with its own extent
+					shape := p.Shape()
+					cidx := make([]tensor.Range, len(shape))
+					for i := range cidx {
+						if i < len(index) && !(index[i].From == 0 && index[i].To == 0) {
+							cidx[i] = index[i]
+						} else {
+							cidx[i] = tensor.Range{From: 0, To: shape[i]}
+						}
+					}
+
+					return y.Gradient().Slice(cidx)
 				},
 			},
 		},
